@@ -78,11 +78,12 @@ def main(argv):
         print(__doc__)
         return 2
     results = {}
-    with concurrent.futures.ThreadPoolExecutor(max_workers=8) as ex:
+    with concurrent.futures.ThreadPoolExecutor(max_workers=int(os.environ.get('RBQL_SELFTEST_JOBS', '12'))) as ex:
         futs = {ex.submit(try_patch, p): p for p in patches}
         for f in concurrent.futures.as_completed(futs):
             p = futs[f]
-            name = os.path.basename(os.path.dirname(p)) + '/' + os.path.basename(p)
+            parts = os.path.abspath(p).split(os.sep)
+            name = '/'.join(parts[-3:]) if len(parts) >= 3 and parts[-3].startswith('round') else '/'.join(parts[-2:])
             results[name] = f.result()
             print(summarize(name, results[name]))
             sys.stdout.flush()
